@@ -49,8 +49,18 @@ theorem getFile_putAll (k : String) (src dst : Files) :
 
 /-! ### MergeFileCaches -/
 
-theorem mergeStep_ok {acc fc m : FileCache} (h : mergeStep acc fc = .ok m) :
-    (acc.rootDir = "" ∨ acc.rootDir = fc.rootDir) ∧ m.rootDir = fc.rootDir ∧ m.files = putAll fc.files acc.files := by
+theorem sameDirectory_iff (abs : String → String) (a b : String) :
+    sameDirectory abs a b = true ↔ (a = b ∨ abs a = abs b) := by
+  simp [sameDirectory]
+
+theorem sameDirectory_abs {abs : String → String} {a b : String} (h : sameDirectory abs a b = true) : abs a = abs b := by
+  rcases (sameDirectory_iff abs a b).mp h with h | h
+  · rw [h]
+  · exact h
+
+theorem mergeStep_ok {abs : String → String} {acc fc m : FileCache} (h : mergeStep abs acc fc = .ok m) :
+    (acc.rootDir = "" ∨ sameDirectory abs acc.rootDir fc.rootDir = true) ∧ m.rootDir = fc.rootDir ∧
+      m.files = putAll fc.files acc.files := by
   unfold mergeStep at h
   split at h
   · cases h
@@ -59,12 +69,12 @@ theorem mergeStep_ok {acc fc m : FileCache} (h : mergeStep acc fc = .ok m) :
     refine ⟨?_, rfl, rfl⟩
     by_cases h1 : acc.rootDir = ""
     · exact Or.inl h1
-    · by_cases h2 : acc.rootDir = fc.rootDir
-      · exact Or.inr h2
-      · exact absurd ⟨h1, h2⟩ hc
+    · cases h2 : sameDirectory abs acc.rootDir fc.rootDir with
+      | true => exact Or.inr rfl
+      | false => exact absurd ⟨h1, h2⟩ hc
 
-theorem mergeStep_error {acc fc : FileCache} {e : Err} (h : mergeStep acc fc = .error e) :
-    e = .rootMismatch ∧ acc.rootDir ≠ "" ∧ acc.rootDir ≠ fc.rootDir := by
+theorem mergeStep_error {abs : String → String} {acc fc : FileCache} {e : Err} (h : mergeStep abs acc fc = .error e) :
+    e = .rootMismatch ∧ acc.rootDir ≠ "" ∧ sameDirectory abs acc.rootDir fc.rootDir = false := by
   unfold mergeStep at h
   split at h
   · rename_i hc
@@ -72,9 +82,21 @@ theorem mergeStep_error {acc fc : FileCache} {e : Err} (h : mergeStep acc fc = .
     exact ⟨rfl, hc⟩
   · cases h
 
+/-- a step whose check passes -/
+theorem mergeStep_pass {abs : String → String} {acc fc : FileCache}
+    (h : acc.rootDir = "" ∨ sameDirectory abs acc.rootDir fc.rootDir = true) :
+    mergeStep abs acc fc = .ok { rootDir := fc.rootDir, files := putAll fc.files acc.files } := by
+  unfold mergeStep
+  split
+  · rename_i hc
+    cases h with
+    | inl h0 => exact absurd h0 hc.1
+    | inr h1 => rw [h1] at hc; exact absurd hc.2 (by simp)
+  · rfl
+
 /-- the only error of a merge is the root-directory mismatch -/
-theorem mergeFrom_error (cs : List (Option FileCache)) (acc : FileCache) (e : Err)
-    (h : mergeFrom acc cs = .error e) : e = .rootMismatch := by
+theorem mergeFrom_error (abs : String → String) (cs : List (Option FileCache)) (acc : FileCache) (e : Err)
+    (h : mergeFrom abs acc cs = .error e) : e = .rootMismatch := by
   induction cs generalizing acc with
   | nil => cases h
   | cons c r ih =>
@@ -82,7 +104,7 @@ theorem mergeFrom_error (cs : List (Option FileCache)) (acc : FileCache) (e : Er
     | none => exact ih acc h
     | some fc =>
       simp only [mergeFrom] at h
-      cases hs : mergeStep acc fc with
+      cases hs : mergeStep abs acc fc with
       | error e' =>
         rw [hs] at h
         cases h
@@ -92,8 +114,8 @@ theorem mergeFrom_error (cs : List (Option FileCache)) (acc : FileCache) (e : Er
         exact ih acc' h
 
 /-- last writer wins: the merged entry of `k` is the one of the last cache that has the key, else the accumulator's -/
-theorem mergeFrom_getFile (k : String) (cs : List (Option FileCache)) (acc m : FileCache)
-    (h : mergeFrom acc cs = .ok m) :
+theorem mergeFrom_getFile (abs : String → String) (k : String) (cs : List (Option FileCache)) (acc m : FileCache)
+    (h : mergeFrom abs acc cs = .ok m) :
     getFile k m.files = match lastWins k cs with
       | some v => some v
       | none => getFile k acc.files := by
@@ -106,7 +128,7 @@ theorem mergeFrom_getFile (k : String) (cs : List (Option FileCache)) (acc m : F
     | none => exact ih acc h
     | some fc =>
       simp only [mergeFrom] at h
-      cases hs : mergeStep acc fc with
+      cases hs : mergeStep abs acc fc with
       | error e' => rw [hs] at h; cases h
       | ok acc' =>
         rw [hs] at h
@@ -119,68 +141,86 @@ theorem mergeFrom_getFile (k : String) (cs : List (Option FileCache)) (acc m : F
           simp only
           rw [(mergeStep_ok hs).2.2, getFile_putAll]
 
-/-- a successful merge: every non-empty root directory involved is the root directory of the result -/
-theorem mergeFrom_roots (cs : List (Option FileCache)) (acc m : FileCache) (h : mergeFrom acc cs = .ok m) :
-    (∀ c, some c ∈ cs → c.rootDir ≠ "" → c.rootDir = m.rootDir) ∧ (acc.rootDir ≠ "" → acc.rootDir = m.rootDir) := by
+/-- a successful merge of caches that all carry a non-empty root directory: every root directory involved denotes the
+    directory of the result (same `filepath.Abs`) -/
+theorem mergeFrom_roots (abs : String → String) (cs : List (Option FileCache)) (acc m : FileCache)
+    (hne : ∀ c, some c ∈ cs → c.rootDir ≠ "") (h : mergeFrom abs acc cs = .ok m) :
+    (∀ c, some c ∈ cs → abs c.rootDir = abs m.rootDir) ∧ (acc.rootDir ≠ "" → abs acc.rootDir = abs m.rootDir) := by
   induction cs generalizing acc with
   | nil =>
     cases h
     exact ⟨fun c hc => (by cases hc), fun _ => rfl⟩
   | cons c r ih =>
+    have hne' : ∀ c, some c ∈ r → c.rootDir ≠ "" := fun c hc => hne c (List.mem_cons_of_mem _ hc)
     cases c with
     | none =>
-      have := ih acc h
-      refine ⟨fun c hc hne => ?_, this.2⟩
+      have := ih acc hne' h
+      refine ⟨fun c hc => ?_, this.2⟩
       cases hc with
-      | tail _ hc' => exact this.1 c hc' hne
+      | tail _ hc' => exact this.1 c hc'
     | some fc =>
       simp only [mergeFrom] at h
-      cases hs : mergeStep acc fc with
+      cases hs : mergeStep abs acc fc with
       | error e' => rw [hs] at h; cases h
       | ok acc' =>
         rw [hs] at h
-        have ih' := ih acc' h
+        have ih' := ih acc' hne' h
         obtain ⟨hroot, hacc', _⟩ := mergeStep_ok hs
-        refine ⟨fun c hc hne => ?_, fun hne => ?_⟩
+        have hfc : fc.rootDir ≠ "" := hne fc List.mem_cons_self
+        have hfcm : abs fc.rootDir = abs m.rootDir := by
+          rw [← hacc']
+          exact ih'.2 (by rw [hacc']; exact hfc)
+        refine ⟨fun c hc => ?_, fun hn => ?_⟩
         · cases hc with
-          | head => exact ih'.2 (by rw [hacc']; exact hne) ▸ hacc'.symm ▸ rfl
-          | tail _ hc' => exact ih'.1 c hc' hne
+          | head => exact hfcm
+          | tail _ hc' => exact ih'.1 c hc'
         · cases hroot with
-          | inl h0 => exact absurd h0 hne
-          | inr h1 =>
-            have : acc'.rootDir ≠ "" := by rw [hacc', ← h1]; exact hne
-            rw [h1, ← hacc']
-            exact ih'.2 this
+          | inl h0 => exact absurd h0 hn
+          | inr h1 => exact (sameDirectory_abs h1).trans hfcm
 
-/-- caches that all carry the root directory `r` always merge -/
-theorem mergeFrom_same_root (r : String) (cs : List (Option FileCache)) (acc : FileCache)
-    (hacc : acc.rootDir = "" ∨ acc.rootDir = r) (hcs : ∀ c, some c ∈ cs → c.rootDir = r) :
-    ∃ m, mergeFrom acc cs = .ok m ∧ (m.rootDir = "" ∨ m.rootDir = r) := by
+/-- caches whose root directories all denote one directory (same `filepath.Abs`) always merge -/
+theorem mergeFrom_same_dir (abs : String → String) (a : String) (cs : List (Option FileCache)) (acc : FileCache)
+    (hacc : acc.rootDir = "" ∨ abs acc.rootDir = a) (hcs : ∀ c, some c ∈ cs → abs c.rootDir = a) :
+    ∃ m, mergeFrom abs acc cs = .ok m ∧ (m.rootDir = "" ∨ abs m.rootDir = a) := by
   induction cs generalizing acc with
   | nil => exact ⟨acc, rfl, hacc⟩
   | cons c rest ih =>
     cases c with
     | none => exact ih acc hacc (fun c hc => hcs c (List.mem_cons_of_mem _ hc))
     | some fc =>
-      have hfc : fc.rootDir = r := hcs fc (List.mem_cons_self)
-      have hstep : mergeStep acc fc = .ok { rootDir := fc.rootDir, files := putAll fc.files acc.files } := by
-        unfold mergeStep
-        split
-        · rename_i hc
-          cases hacc with
-          | inl h0 => exact absurd h0 hc.1
-          | inr h1 => exact absurd (h1.trans hfc.symm) hc.2
-        · rfl
+      have hfc : abs fc.rootDir = a := hcs fc (List.mem_cons_self)
+      have hstep := mergeStep_pass (abs := abs) (acc := acc) (fc := fc) (by
+        cases hacc with
+        | inl h0 => exact Or.inl h0
+        | inr h1 => exact Or.inr ((sameDirectory_iff abs _ _).mpr (Or.inr (h1.trans hfc.symm))))
       simp only [mergeFrom, hstep]
       exact ih _ (Or.inr hfc) (fun c hc => hcs c (List.mem_cons_of_mem _ hc))
 
+/-- when every cache carries literally the same root directory string, the merge does not depend on `filepath.Abs` -/
+theorem mergeFrom_allRoot_indep (f g : String → String) (a : String) (cs : List (Option FileCache)) (acc : FileCache)
+    (hacc : acc.rootDir = "" ∨ acc.rootDir = a) (hcs : ∀ c, some c ∈ cs → c.rootDir = a) :
+    mergeFrom f acc cs = mergeFrom g acc cs := by
+  induction cs generalizing acc with
+  | nil => rfl
+  | cons c rest ih =>
+    cases c with
+    | none => exact ih acc hacc (fun c hc => hcs c (List.mem_cons_of_mem _ hc))
+    | some fc =>
+      have hfc : fc.rootDir = a := hcs fc (List.mem_cons_self)
+      have pass : ∀ abs : String → String, acc.rootDir = "" ∨ sameDirectory abs acc.rootDir fc.rootDir = true := fun abs => by
+        cases hacc with
+        | inl h0 => exact Or.inl h0
+        | inr h1 => exact Or.inr ((sameDirectory_iff abs _ _).mpr (Or.inl (h1.trans hfc.symm)))
+      simp only [mergeFrom, mergeStep_pass (pass f), mergeStep_pass (pass g)]
+      exact ih _ (Or.inr hfc) (fun c hc => hcs c (List.mem_cons_of_mem _ hc))
+
 /-- the root directory of a successful merge that ends with a non-nil cache is that cache's root directory -/
-theorem mergeFrom_append_root (cs : List (Option FileCache)) (c acc m : FileCache)
-    (h : mergeFrom acc (cs ++ [some c]) = .ok m) : m.rootDir = c.rootDir := by
+theorem mergeFrom_append_root (abs : String → String) (cs : List (Option FileCache)) (c acc m : FileCache)
+    (h : mergeFrom abs acc (cs ++ [some c]) = .ok m) : m.rootDir = c.rootDir := by
   induction cs generalizing acc with
   | nil =>
     simp only [List.nil_append, mergeFrom] at h
-    cases hs : mergeStep acc c with
+    cases hs : mergeStep abs acc c with
     | error e' => rw [hs] at h; cases h
     | ok acc' =>
       rw [hs] at h
@@ -191,7 +231,7 @@ theorem mergeFrom_append_root (cs : List (Option FileCache)) (c acc m : FileCach
     | none => exact ih acc h
     | some fc =>
       simp only [List.cons_append, mergeFrom] at h
-      cases hs : mergeStep acc fc with
+      cases hs : mergeStep abs acc fc with
       | error e' => rw [hs] at h; cases h
       | ok acc' =>
         rw [hs] at h
